@@ -236,26 +236,66 @@ func R47() Rule {
 		P := c.P
 		stamp := P.MustFunc(core.PkgBttest, "(*table).write")
 		upd := P.MustFunc(core.PkgBttest, "(*table).updateRow")
-		stamps := func(in ssa.Instruction) bool {
-			ci := core.Call(in)
-			if ci == nil || ci.Static == nil {
-				return false
-			}
-			if ci.Static == stamp {
+		// certainly(f): every execution of f stamps (a call or defer of table.write in its entry
+		// block, directly, through a helper, or through the function a helper hands back:
+		// `defer tbl.lockForWrite()()`)
+		var certainly func(f *ssa.Function, d int) bool
+		var stampsAt func(in ssa.Instruction, d int) bool
+		certainly = func(f *ssa.Function, d int) bool {
+			if f == stamp {
 				return true
 			}
-			// a helper that certainly stamps (call or defer on every path)
-			if core.PkgPathOf(ci.Static) == core.PkgBttest && ci.Static.Blocks != nil {
-				for _, b := range ci.Static.Blocks {
-					for _, i2 := range b.Instrs {
-						if c2 := core.Call(i2); c2 != nil && c2.Static == stamp && b == ci.Static.Blocks[0] {
-							return true
-						}
-					}
+			if f == nil || f.Blocks == nil || d > 4 || core.PkgPathOf(f) != core.PkgBttest {
+				return false
+			}
+			for _, in := range f.Blocks[0].Instrs {
+				if stampsAt(in, d+1) {
+					return true
 				}
 			}
 			return false
 		}
+		stampsAt = func(in ssa.Instruction, d int) bool {
+			ci := core.Call(in)
+			if ci == nil {
+				return false
+			}
+			if _, isGo := in.(*ssa.Go); isGo {
+				return false
+			}
+			if ci.Static != nil {
+				return certainly(ci.Static, d)
+			}
+			if ci.Common.IsInvoke() {
+				return false
+			}
+			if cl := closureOf(ci.Common.Value); cl != nil {
+				return certainly(cl, d)
+			}
+			// the result of a helper: every function it can return stamps
+			if call, isC := core.Resolve(ci.Common.Value).(*ssa.Call); isC {
+				g := call.Call.StaticCallee()
+				if g == nil || g.Blocks == nil || core.PkgPathOf(g) != core.PkgBttest || d > 4 {
+					return false
+				}
+				k := 0
+				for _, r := range returnsIn(g) {
+					if len(r.Results) != 1 {
+						return false
+					}
+					for _, v := range returnValues(r.Results[0]) {
+						cl := closureOf(v)
+						if cl == nil || !certainly(cl, d+1) {
+							return false
+						}
+						k++
+					}
+				}
+				return k > 0
+			}
+			return false
+		}
+		stamps := func(in ssa.Instruction) bool { return stampsAt(in, 0) }
 		n := 0
 		for _, fn := range P.SrcFuncs(core.PkgBttest) {
 			if fn.Parent() != nil || !isServerMethod(fn) || fn.Object() == nil || !fn.Object().Exported() {
@@ -325,12 +365,12 @@ func R48() Rule {
 						continue
 					}
 					cb := closureOf(ci.Common.Args[1])
-					if cb == nil || len(cb.Params) != 3 {
+					if cb == nil || cb.Blocks == nil || cb.Signature.Params().Len() != 3 || len(cb.Params) < 3 {
 						continue
 					}
 					n++
 					c.Fn(core.FuncName(cb))
-					errParam := cb.Params[2]
+					errParam := cb.Params[len(cb.Params)-1] // the callback may be a closure or a (bound) method
 					ok := true
 					var at token.Pos = cb.Pos()
 					for _, r := range returnsIn(cb) {
@@ -1048,6 +1088,15 @@ func R54() Rule {
 // callback deadlocks against a writer that holds the table lock and waits for the
 // engine; (d) Rows.Close is called only when the server shuts down: a table handle
 // obtained before a DeleteTable is still used by in-flight requests.
+func isLeveldbDB(t types.Type) bool {
+	pt, ok := t.Underlying().(*types.Pointer)
+	if !ok {
+		return false
+	}
+	n := core.NamedOf(pt.Elem())
+	return n != nil && n.Obj().Pkg() != nil && n.Obj().Pkg().Path() == pkgLdb && n.Obj().Name() == "DB"
+}
+
 func R55() Rule {
 	return Rule{Name: "R55", Run: func(c *core.Ctx) {
 		P := c.P
@@ -1064,53 +1113,88 @@ func R55() Rule {
 			}
 			return false
 		}
-		// (a) reopen closures and Create
+		// (a) reopen functions, Create and Clear.  An "open call" is any call that yields a
+		// *leveldb.DB and takes a bool (the constructor, a reopen closure, a method of an
+		// opener object, an interface invoke of one): the shape survives turning the closure
+		// into a type.
+		openArg := func(ci *core.CallInfo) ssa.Value {
+			if ci.Common == nil || ci.Instr == nil {
+				return nil
+			}
+			res := ci.Common.Signature().Results()
+			if res.Len() != 1 || !isLeveldbDB(res.At(0).Type()) {
+				return nil
+			}
+			args := ci.Common.Args
+			for i := len(args) - 1; i >= 0; i-- {
+				if isBoolType(args[i].Type()) {
+					return args[i]
+				}
+			}
+			return nil
+		}
+		hasBoolParam := func(fn *ssa.Function) bool {
+			for _, pa := range fn.Params {
+				if isBoolType(pa.Type()) {
+					return true
+				}
+			}
+			return false
+		}
+		reachesDisk := map[*ssa.Function]bool{}
+		for _, fn := range P.SrcFuncs(core.PkgBttest) {
+			for _, ci := range core.AllCalls(fn) {
+				if ci.Static != nil && core.FuncName(ci.Static) == "newDiskDb" {
+					reachesDisk[fn] = true
+				}
+			}
+		}
 		nClos := 0
 		for _, fn := range P.SrcFuncs(core.PkgBttest) {
-			if fn.Parent() == nil || len(fn.Params) != 1 || !isBoolType(fn.Params[0].Type()) {
+			if !hasBoolParam(fn) || !reachesDisk[fn] {
 				continue
 			}
 			for _, ci := range core.AllCalls(fn) {
-				if ci.Static == nil || (core.FuncName(ci.Static) != "newDiskDb" && core.FuncName(ci.Static) != "newMemDb") {
-					continue
-				}
-				if core.FuncName(ci.Static) != "newDiskDb" {
+				arg := openArg(ci)
+				if arg == nil {
 					continue
 				}
 				nClos++
 				c.Fn(core.FuncName(fn))
-				arg := ci.Common.Args[len(ci.Common.Args)-1]
-				c.Check(core.Resolve(arg) == ssa.Value(fn.Params[0]), "R55", fmt.Sprintf("a/%s/reopen-passes-nuke", core.FuncName(fn)), ci.Instr.Pos(), "the reopen closure hands its nuke parameter to the constructor", "the reopen closure does not pass its nuke parameter on: Clear() (drop all rows) reopens the same directory without wiping it — the rows stay")
+				pa, isP := core.Resolve(arg).(*ssa.Parameter)
+				c.Check(isP && pa.Parent() == fn, "R55", fmt.Sprintf("a/%s/reopen-passes-nuke", core.FuncName(fn)), ci.Instr.Pos(), "the reopen function hands its nuke parameter to the constructor", "the reopen closure does not pass its nuke parameter on: Clear() (drop all rows) reopens the same directory without wiping it — the rows stay")
 			}
 		}
-		for _, name := range []string{"LeveldbDiskStorage.Create"} {
-			fn := P.Func(core.PkgBttest, name)
+		for _, it := range []struct{ name, good, bad string }{
+			{"LeveldbDiskStorage.Create", "a created table always starts from a wiped directory", "Create does not (always) wipe the table's row directory: a table re-created after DeleteTable comes back with the deleted table's rows"},
+			{"(*leveldbRows).Clear", "dropping all rows reopens a wiped directory", "Clear reopens the database without wiping it: DropRowRange(all) / DeleteAllRows leaves the rows in place"},
+		} {
+			fn := P.Func(core.PkgBttest, it.name)
 			if fn == nil || fn.Blocks == nil {
 				continue
 			}
-			scope := P.Scope(fn, func(f *ssa.Function) bool {
-				return core.PkgPathOf(f) != core.PkgBttest || core.FuncName(f) == "newDiskDb"
-			})
+			scope := P.Scope(fn, func(f *ssa.Function) bool { return core.PkgPathOf(f) != core.PkgBttest })
 			okNuke, n := true, 0
 			for _, f := range scope {
 				for _, ci := range core.AllCalls(f) {
-					// the initial open: a call of a func(bool) *leveldb.DB value, or of the constructor, outside the reopen closure
-					var arg ssa.Value
-					if ci.Method == nil && len(ci.Common.Args) == 1 && isBoolType(ci.Common.Args[0].Type()) && (ci.Static == nil || ci.Static.Parent() != nil) {
-						arg = ci.Common.Args[0] // the reopen closure (or a variable holding it) called directly
-					} else if ci.Static != nil && core.FuncName(ci.Static) == "newDiskDb" && !(f.Parent() != nil && len(f.Params) == 1 && isBoolType(f.Params[0].Type())) {
-						arg = ci.Common.Args[len(ci.Common.Args)-1]
-					}
+					arg := openArg(ci)
 					if arg == nil {
 						continue
 					}
-					n++
-					if !P.AllOrigins(arg, setOf(scope), func(o ssa.Value) bool { bv, isB := core.ConstBool(o); return isB && bv }) {
-						okNuke = false
+					for _, o := range P.Origins(arg, setOf(scope)) {
+						if bv, isB := core.ConstBool(o); isB {
+							if bv {
+								n++
+							} else {
+								okNuke = false
+							}
+						} else if _, isP := o.(*ssa.Parameter); !isP {
+							okNuke = false // a computed flag: not provably "wipe"
+						}
 					}
 				}
 			}
-			c.Check(okNuke && n > 0, "R55", "a/"+name+"/opens-with-nuke", fn.Pos(), "a created table always starts from a wiped directory", "Create does not (always) wipe the table's row directory: a table re-created after DeleteTable comes back with the deleted table's rows")
+			c.Check(okNuke && n > 0, "R55", "a/"+it.name+"/opens-with-nuke", fn.Pos(), it.good, it.bad)
 		}
 		// (b) effects per Rows method
 		nEff := 0
@@ -1300,28 +1384,54 @@ func R57() Rule {
 			k, isK := core.ConstInt(rem.Y)
 			return isZ && z == 0 && isK && k == 1000
 		}
-		var cut []cfgEdge
-		for _, b := range fn.Blocks {
-			if ifi, ok := b.Instrs[len(b.Instrs)-1].(*ssa.If); ok && isMsTest(ifi.Cond) {
-				cut = append(cut, cfgEdge{b, b.Succs[0]})
+		// onlyMs(f): every path on which f returns true passed the whole-millisecond test,
+		// directly or in a predicate helper f consults
+		memo := map[*ssa.Function]bool{}
+		var onlyMs func(f *ssa.Function, depth int) (bool, int)
+		var msValue func(v ssa.Value, depth int) bool
+		msValue = func(v ssa.Value, depth int) bool {
+			if isMsTest(v) {
+				return true
 			}
-		}
-		ok, n := true, 0
-		for _, r := range returnsIn(fn) {
-			for _, v := range returnValues(r.Results[0]) {
-				n++
-				if isMsTest(v) {
-					continue
-				}
-				if bv, isB := core.ConstBool(v); isB && !bv {
-					continue
-				}
-				// may be true: only through the test's true edge
-				if len(cut) == 0 || reachableWithoutEdges(fn, r.Block(), cut) {
-					ok = false
+			if call, isC := core.Resolve(v).(*ssa.Call); isC && depth < 4 {
+				if g := call.Call.StaticCallee(); g != nil && g.Blocks != nil && core.PkgPathOf(g) == core.PkgBttest && g.Signature.Results().Len() == 1 && isBoolType(g.Signature.Results().At(0).Type()) {
+					if done, seen := memo[g]; seen {
+						return done
+					}
+					memo[g] = false
+					r, k := onlyMs(g, depth+1)
+					memo[g] = r && k > 0
+					return memo[g]
 				}
 			}
+			return false
 		}
+		onlyMs = func(f *ssa.Function, depth int) (bool, int) {
+			var cut []cfgEdge
+			for _, b := range f.Blocks {
+				if ifi, ok := b.Instrs[len(b.Instrs)-1].(*ssa.If); ok && msValue(ifi.Cond, depth) {
+					cut = append(cut, cfgEdge{b, b.Succs[0]})
+				}
+			}
+			ok, n := true, 0
+			for _, r := range returnsIn(f) {
+				for _, v := range returnValues(r.Results[0]) {
+					n++
+					if msValue(v, depth) {
+						continue
+					}
+					if bv, isB := core.ConstBool(v); isB && !bv {
+						continue
+					}
+					// may be true: only through the test's true edge
+					if len(cut) == 0 || reachableWithoutEdges(f, r.Block(), cut) {
+						ok = false
+					}
+				}
+			}
+			return ok, n
+		}
+		ok, n := onlyMs(fn, 0)
 		c.Check(ok && n > 0, "R57", "validTimestamp/whole-milliseconds-on-every-accepting-path", fn.Pos(), "a timestamp is accepted only through the `ts % 1000 == 0` test", "validTimestamp can accept a timestamp without the whole-millisecond test (the test is conditional): sub-millisecond timestamps are stored instead of rejected")
 	}}
 }
